@@ -39,6 +39,9 @@ def gen(seed, index):
         GE = g.GE(rng, kind="T", unit=max(1, span // n // 4 or 1), shapes=[0, 0, 0.5, -0.5, 1, -1, 2, -2, 3, -3, 5, -5], last_positive=False)
         tempo = GE.env(n)
         tempo[0] = "T"
+        if rng.random() < 0.05:
+            # finding F13: a curve shape that is not 0 but tiny
+            rng.choice(tempo[1:])[2] = g.hexf(rng.choice([1e-8, 1e-9, -1e-9, 1e-7]))
     trees.append(first)
     for _ in range(rng.choice([0, 1, 1, 2, 3, 4])):
         r = rng.random()
@@ -62,6 +65,11 @@ def gen(seed, index):
 
 
 def compare(case, mo, io):
+    m = compare1(case, mo, io)
+    return ("[F13] " + m) if m and tiny_shape(case[1]) else m
+
+
+def compare1(case, mo, io):
     if is_err(mo) or is_err(io):
         return None if mo[:2] == io[:2] else f"outcome differs: model {sx.show(mo[:2])} impl {sx.show(io[:2])}"
     for k, (a, b) in enumerate(zip(mo[1:], io[1:])):
@@ -112,6 +120,11 @@ def leaf_spans(t, off=0):
 
 
 def oracle(case, io, mo):
+    m = oracle1(case, io, mo)
+    return ("[F13] " + m) if m and tiny_shape(case[1]) else m
+
+
+def oracle1(case, io, mo):
     if is_err(io):
         return f"conversion raised {io[1]}"
     tempo = case[1]
@@ -159,6 +172,19 @@ def walk(t):
     if t[0] != "L":
         for c in t[3:]:
             yield from walk(c)
+
+
+def tiny_shape(e):
+    """a tempo point with a curve shape 0 < |c| < 1e-4 (finding F13)"""
+    return any(0 < abs(fl(p[2])) < 1e-4 for p in e[1:])
+
+
+def known(f, case, msg, io):
+    return f.get("id") == "F13" and (msg or "").startswith("[F13]")
+
+
+def known_dis(f, case, msg, io, mo):
+    return f.get("id") == "F13" and (msg or "").startswith("[F13]")
 
 
 def nontrivial(case, io):
